@@ -62,6 +62,7 @@ struct GenOpts {
     int min_wells = 1;
     bool late_edits = false;                // later blocks also carry WPIMULT, WSEGVALV (MSW wells), COMPDAT re-specification, WECON, WTEST on wells that exist since block 0
     bool udq_unary_minus = false;           // UDQ DEFINE expressions with a unary minus (-FOPT * 2, -(FOPT + 10), -WOPT)
+    bool tuning_vfp = false;                // NEXTSTEP in ACTIONX bodies and later blocks; a VFPPROD table in block 0 that later blocks define again
     bool geo_kws = false;                   // MULTX/MULTY/MULTZ(-) over the whole grid in later blocks and in ACTIONX bodies (ScheduleState::geo_keywords)
     bool reparent_groups = false;           // GRUPTREE records that move an existing group (later blocks: anywhere legal; action bodies: to FIELD)
     bool allow_msw = true, allow_history = true, allow_groups = true;
